@@ -7,6 +7,7 @@ package main
 // produce a program whose runs yield what the reference semantics assigns.
 
 import (
+	"fmt"
 	"strings"
 
 	"github.com/antonmedv/expr/vm"
@@ -17,6 +18,81 @@ const ovBig = 23000
 
 var ovSmallLit = "[" + strings.TrimSuffix(strings.Repeat("0, ", ovSmall), ", ") + "]"
 var ovBigLit = "[" + strings.TrimSuffix(strings.Repeat("0, ", ovBig), ", ") + "]"
+
+// the literal of family "ovconst": ["a", 2, ..., 12], inflated to ["a", 2, ..., n]
+func distinctLit(n int) string {
+	var b strings.Builder
+	b.WriteString("[\"a\"")
+	for i := 2; i <= n; i++ {
+		fmt.Fprintf(&b, ", %d", i)
+	}
+	b.WriteString("]")
+	return b.String()
+}
+
+var ocSmallLit = distinctLit(12)
+
+// ovConstCase: C05, "programs with more distinct constants than fit a 16-bit
+// index".  The literal is inflated so that the constant pool is full or nearly
+// full when the constants after it are created; Compile must reject the
+// expression or produce a program whose runs conform.
+func (r *replayer) ovConstCase(c Case) {
+	if !strings.Contains(c.Src, ocSmallLit) {
+		return
+	}
+	r.ocSeen++
+	stride := 1
+	fmt.Sscan(r.opts["-ocstride"], &stride)
+	if stride > 1 && r.ocSeen%stride != 1 {
+		return
+	}
+	sizes := []int{65534, 65535, 65536}
+	if r.opts["-ocsizes"] == "one" {
+		sizes = []int{65535}
+	}
+	lg := &Log{}
+	for _, n := range sizes {
+		src := strings.Replace(c.Src, ocSmallLit, distinctLit(n), -1)
+		for _, m := range r.modes {
+			prog, cg := CompileMode(src, m)
+			tag := fmt.Sprintf("literal of %d distinct constants", n)
+			if cg != nil {
+				if cg.Panic != "" || cg.Hang {
+					r.fail(Failure{Why: "compile-panic", Src: c.Src, Mode: m.String(), Got: cg, Tags: []string{tag}})
+				} else {
+					r.sum.Stats["rejected by compile ("+tag+")"]++
+				}
+				continue
+			}
+			r.sum.Programs++
+			r.sum.Stats["accepted ("+tag+")"]++
+			if len(prog.Constants) > 65536 {
+				r.sum.Stats["accepted with more than 65536 constants"]++
+			}
+			for i := range c.Runs {
+				rc := c.Runs[i]
+				e, err := BuildEnv(rc.Env, lg)
+				if err != nil {
+					r.sum.Infra = append(r.sum.Infra, err.Error())
+					continue
+				}
+				g := RunMode(src, prog, m, e, lg)
+				r.sum.Executions++
+				if ok, why := conforms(g, rc.Exp, true); !ok {
+					exp := rc.Exp
+					if len(g.Err) > 300 {
+						g.Err = g.Err[:300]
+					}
+					r.fail(Failure{Why: "constpool-" + why, Src: c.Src, Mode: m.String(), Env: rc.Env,
+						Exp: &exp, Got: &g, Tags: []string{tag, fmt.Sprintf("constants in the program: %d", len(prog.Constants))}})
+				}
+			}
+		}
+	}
+	r.sum.Nontrivial++
+	c.Runs = nil
+	r.sample(c)
+}
 
 type OvCase struct {
 	Case
@@ -146,5 +222,42 @@ func (r *replayer) budgetCase(c Case) {
 		}
 	}
 	r.sum.Nontrivial++
+	r.sample(c)
+}
+
+// cleanExitCase: C05, last clause.  Every successful real run of every case on
+// a caller-owned VM must end with nothing left on the evaluation stack (Run has
+// popped the result) and no loop scope open; a failed run is not constrained.
+func (r *replayer) cleanExitCase(c Case) {
+	lg := &Log{}
+	for _, m := range r.modes {
+		prog, cg := CompileMode(c.Src, m)
+		if cg != nil {
+			r.sum.Skipped["compile-rejected"]++
+			continue
+		}
+		r.sum.Programs++
+		for i := range c.Runs {
+			rc := c.Runs[i]
+			e, err := BuildEnv(rc.Env, lg)
+			if err != nil {
+				r.sum.Infra = append(r.sum.Infra, err.Error())
+				continue
+			}
+			own := &vm.VM{}
+			g := runOn(own, prog, m, e, lg)
+			r.sum.Executions++
+			if g.Panic != "" || g.Hang || !g.Ok {
+				continue
+			}
+			if n := len(own.Stack()); n != 0 || own.Scope() != nil {
+				r.fail(Failure{Why: "unclean-exit", Src: c.Src, Mode: m.String(), Env: rc.Env, Got: &g,
+					Tags: []string{fmt.Sprintf("values left on the stack: %d, scope open: %v", n, own.Scope() != nil)}})
+			}
+		}
+	}
+	if c.N >= 3 {
+		r.sum.Nontrivial++
+	}
 	r.sample(c)
 }
